@@ -467,6 +467,9 @@ def run(rep: C.Report, tier: str) -> int:
         status, obs, extra = all_results[ci][qi]
         bad = oracle(case["kind"], case["npar"], case["rows"], case["probs"], q, status, obs, extra)
         key = key_of(case, q)
+        if bad:
+            key += "/" + ("ndim" if "dimensions" in bad[0] else "exception" if "raised" in bad[0] else
+                          "shape" if "shape" in bad[0] else "content")
         size = len(case["rows"]) * case["npar"]
         if key in seen_keys and seen_keys[key] <= size:
             continue        # keep the smallest witness per call site
@@ -479,8 +482,17 @@ def run(rep: C.Report, tier: str) -> int:
                           "implementation and model disagree, but the property was not seen to fail on this input",
                           {"theorem_or_correspondence": "Model.Readouts.check_case (correspondence with the read-outs)",
                            "case": describe(case, q, status, obs, extra)}, False)
-    # smallest witness first
+    # smallest witness first, but one witness of every kind of read-out before the second of any
     rep.violations.sort(key=lambda v: len(json.dumps(C.jsonable(v["replay"]))))
+    order = ["interval-count/ndim", "param/shape", "sample/shape", "interval/exception", "marginal/shape"]
+    kind_of = lambda v: "/".join(v["key"].split("/")[2:]) if v["key"].count("/") >= 2 else v["key"]
+    firsts, rest, seen_kinds = [], [], set()
+    for v in rep.violations:
+        k = kind_of(v)
+        (rest if k in seen_kinds else firsts).append(v)
+        seen_kinds.add(k)
+    firsts.sort(key=lambda v: order.index(kind_of(v)) if kind_of(v) in order else len(order))
+    rep.violations = firsts + rest
 
     # [R] second opinion: the oracle on a slice of agreeing queries, and the real
     # GaussianKDE really keeps the values it is given
